@@ -31,8 +31,11 @@ def fits_int32(F):
             F.assume(z3.And(c >= 0, c <= 2 ** 31 - 1))
 
 
-def mk_defaults(F):
-    """every object through its public constructor with default arguments"""
+def mk_defaults(F, zero="lanelet"):
+    """every object through its public constructor with default arguments; the id 0 is used once (ids are unique per scenario):
+    by a lanelet that is a neighbour / predecessor / successor (zero='lanelet') or by an intersection incoming that another
+    incoming's left_of refers to (zero='incoming')"""
+    z = 0 if zero == "lanelet" else 4
     import numpy as np
 
     import commonroad.scenario.state as st
@@ -53,9 +56,16 @@ def mk_defaults(F):
     F.method(sc, "add_objects", F.new(Lanelet, left, center, right, 1))
     # the id 0 is a valid id: a neighbour / successor with id 0 is a neighbour, not 'no neighbour'
     cv = lambda y: (np.array([[10.0, y + 1.0], [20.0, y + 1.25]]), np.array([[10.0, y + 0.5], [20.0, y + 0.75]]), np.array([[10.0, y], [20.0, y + 0.25]]))
-    F.method(sc, "add_objects", F.new(Lanelet, *cv(3.0), 0, [], [], 7, True, None, None))
-    F.method(sc, "add_objects", F.new(Lanelet, *cv(5.0), 7, [0], [0], 0, False, 0, True))
+    F.method(sc, "add_objects", F.new(Lanelet, *cv(3.0), z, [], [], 7, True, None, None))
+    F.method(sc, "add_objects", F.new(Lanelet, *cv(5.0), 7, [z], [z], z, False, z, True))
     F.method(sc, "add_objects", F.new(TrafficSign, 5, [TrafficSignElement(TrafficSignIDZamunda.MAX_SPEED, ["10"])], set(), pos(F, "dsign_p")), set())
+    # an intersection whose incoming 0 is referred to by left_of (0 is an id, not 'none')
+    from commonroad.scenario.intersection import Intersection, IntersectionIncomingElement
+
+    i0 = 0 if zero == "incoming" else 3
+    inc0 = F.new(IntersectionIncomingElement, i0, {1}, {7}, set(), set(), None)
+    inc8 = F.new(IntersectionIncomingElement, 8, {7}, set(), set(), {1}, i0)
+    F.method(sc, "add_objects", F.new(Intersection, 9, [inc0, inc8], set()))
     light = F.new(TrafficLight, 6, pos(F, "dlight_p"))
     F.setattr(light, "active", True)  # a light without cycle switched on through the public setter
     F.method(sc, "add_objects", light, set())
@@ -81,7 +91,7 @@ class PbRoundTrip(Contract):
     budget_s = 600
 
 
-for _cname in list(CONTENTS) + ["objects built with default arguments"]:
+for _cname in list(CONTENTS) + ["objects built with default arguments", "objects built with default arguments, incoming with id 0"]:
 
     @register
     class WholeFile(PbRoundTrip):
@@ -92,10 +102,13 @@ for _cname in list(CONTENTS) + ["objects built with default arguments"]:
 
         def build(self, F):
             if self.content is None:
-                sc, pps = mk_defaults(F)
+                sc, pps = mk_defaults(F, "incoming" if "incoming with id 0" in self.case else "lanelet")
             else:
                 sc = mk_scenario(F, self.content, weather=WEATHER)
-                pps = mk_planning_problems(F) if not self.content else F.new(PlanningProblemSet)
+                if "goal_lanelets" in self.content:
+                    pps = mk_planning_problems(F, F.attr(sc, "lanelet_network"))
+                else:
+                    pps = mk_planning_problems(F) if not self.content else F.new(PlanningProblemSet)
             fits_int32(F)
             return {"sc": sc, "pps": pps, "args": []}
 
